@@ -72,7 +72,7 @@ PROPS = {
     "C13": dict(units=[U("NodeRouting.next_node_for_jockeying"), U("ProcessBased.next_node_for_jockeying"), U("NetworkRouting.next_node_for_jockeying"),
                        U("Node.decide_next_event"), U("Node.update_next_renege_time"), U("Node.update_next_event_date"),
                        U("Node.renege"), U("Node.begin_service_if_possible_accept"), U("Node.accept"), U("ArrivalNode.decide_baulk")]),
-    "C14": dict(units=KERNELS + NEXT_EVENT + START + TRANSFER + ARRIVAL + LOOPS + STATS + [U("StateTracker.timestamp"), U("Node.preempt")]),
+    "C14": dict(units=KERNELS + NEXT_EVENT + START + TRANSFER + ARRIVAL + LOOPS + STATS + [U("StateTracker.timestamp"), U("Node.preempt"), U("Node.__init__")]),
     "C16": dict(units=[U("Simulation.find_next_active_node")]),
     "C17": dict(units=[U("Node.block_individual"), U("Node.change_customer_class"), U("Node.accept"), U("Node.release"), U("Node.renege"),
                        U("Node.finish_service"), U("Node.release_blocked_individual")] + TRACKERS + LOOPS[:3]),
